@@ -2,7 +2,7 @@
    ONLY statements: each theorem is closed by `exact` of a lemma proved elsewhere and followed by Print Assumptions. *)
 From Coq Require Import ZArith NArith List Bool Lia Permutation FMapPositive.
 Import ListNotations.
-Require Import Base Strings Builtins Interp Machine Spec Refine2 RunG ImpSearch ModFS ImportMain Lex ImportProofs ModFSProofs ImpLoad.
+Require Import Base Strings Builtins Interp Machine Spec Refine2 RunG ImpSearch ModFS ImportMain Lex ImportProofs ModFSProofs ImportDisk ImpLoad.
 Open Scope Z_scope.
 Import ModFS.      (* index_of, strip_dot, ... below are the disk functions *)
 (* INSIDE THE MAIN MODEL (the evaluator's own ㅂ): the literal route asks the world to search, and that search is ImpSearch.search on the tree the disk denotes - so the six search theorems below speak about the evaluator *)
@@ -60,6 +60,32 @@ Theorem two_matches_are_ambiguous disk lits n1 nm1 bytes1 n2 nm2 bytes2 :
   search lits (tree_of_disk disk) = Ambiguous.
 Proof. exact (ModFSProofs.two_matches_are_ambiguous disk lits n1 nm1 bytes1 n2 nm2 bytes2). Qed.
 Print Assumptions two_matches_are_ambiguous.
+
+(* END TO END on the disk: when exactly one file of a well-formed disk carries the literal words, ㅂ hands that file to the common loader *)
+Theorem import_the_single_match rec sp argv ip h w h1 l0 lits n nm bytes :
+  runG rec (option (list Z)) ip h w (peek_lits argv) = DoneG h1 w (inl (Some (l0 :: lits))) 0 -> argv <> [] -> l0 <> 5%Z ->
+  files_wf (disk_files (w_disk w)) -> nth_error (w_disk w) n = Some (nm, bytes) -> carries (l0 :: lits) nm ->
+  (forall n' nm' bytes', nth_error (w_disk w) n' = Some (nm', bytes') -> carries (l0 :: lits) nm' -> n' = n) ->
+  runG rec value ip h w (bi_import sp argv) = runG rec value ip h1 w (load_from_path sp (46 :: 47 :: nm)%N).
+Proof. exact (ImportDisk.import_the_single_match rec sp argv ip h w h1 l0 lits n nm bytes). Qed.
+Print Assumptions import_the_single_match.
+
+(* when none does: the not-found error at the call, nothing changes *)
+Theorem import_no_match rec sp argv ip h w h1 l0 lits :
+  runG rec (option (list Z)) ip h w (peek_lits argv) = DoneG h1 w (inl (Some (l0 :: lits))) 0 -> argv <> [] -> l0 <> 5%Z ->
+  (forall n nm bytes, nth_error (w_disk w) n = Some (nm, bytes) -> ~ carries (l0 :: lits) nm) ->
+  runG rec value ip h w (bi_import sp argv) = DoneG h1 w (inr (mkerr c_notfound sp)) 0.
+Proof. exact (ImportDisk.import_no_match rec sp argv ip h w h1 l0 lits). Qed.
+Print Assumptions import_no_match.
+
+(* when two do: the import error, nothing changes *)
+Theorem import_two_matches rec sp argv ip h w h1 l0 lits n1 nm1 bytes1 n2 nm2 bytes2 :
+  runG rec (option (list Z)) ip h w (peek_lits argv) = DoneG h1 w (inl (Some (l0 :: lits))) 0 -> argv <> [] -> l0 <> 5%Z ->
+  files_wf (disk_files (w_disk w)) -> n1 <> n2 ->
+  nth_error (w_disk w) n1 = Some (nm1, bytes1) -> carries (l0 :: lits) nm1 -> nth_error (w_disk w) n2 = Some (nm2, bytes2) -> carries (l0 :: lits) nm2 ->
+  runG rec value ip h w (bi_import sp argv) = DoneG h1 w (inr (mkerr c_import sp)) 0.
+Proof. exact (ImportDisk.import_two_matches rec sp argv ip h w h1 l0 lits n1 nm1 bytes1 n2 nm2 bytes2). Qed.
+Print Assumptions import_two_matches.
 
 (* the whole built-in on literal words (not the built-in marker 5): nothing is evaluated, the tree is searched, the file found goes to the same loader as a path string *)
 Theorem import_by_literals rec sp argv ip h w h1 l0 lits p id nm bytes :
